@@ -180,6 +180,29 @@ def namespace_cases(tier, rng):
     return out
 
 
+def prefix_cases(tier, rng):
+    """nested and sibling loops with prefixes of their own: a prefixed name is answered by the loop carrying that prefix (the
+    enclosing one for an inner loop without it), by nobody after that loop's end tag -- where the outer sources answer again"""
+    out = []
+    rows = lst('ROWS', [obj('R%d' % i, x=plain('rx%d' % i)) for i in range(2)])
+    cols = lst('COLS', [plain('c%d' % i) for i in range(2)])
+    kw = {'rows': rows, 'cols': cols, 'row_item': plain('KW-row-item'), 'col_number': plain('KW-col-number'), 'x': plain('outer-x')}
+    svn = dict(svn_table(prefix='row'))
+    svn.update(svn_table(prefix='col'))
+    inner_bodies = [[V('row_number'), T(':'), V('sequence-item'), T(':'), V('row_number'), T(' ')],
+                    [V('row_index'), T('/'), V('col_number'), T('/'), V('row_number'), T(' ')],
+                    [V('sequence-number'), V('row_letter'), V('col_number'), T(' ')]]
+    for ib in inner_bodies:
+        for inner_pre in (None, 'col'):
+            inner = In(N('cols'), ib, pre=bool(inner_pre), prefix=inner_pre or 'p')
+            nested = [In(N('rows'), [T('['), V('row_number')] + [inner] + [V('row_number'), T(']')], pre=True, prefix='row')]
+            sibling = [In(N('rows'), [V('row_number'), T(',')], pre=True, prefix='row'), T('|'),
+                       In(N('cols'), [V('row_item'), T('/'), V('col_number'), T(',')], pre=bool(inner_pre), prefix=inner_pre or 'p')]
+            for prog in (nested, sibling, nested + [T('|')] + sibling, sibling + [T('|')] + nested):
+                out.append(dict(prog=prog + [T('|'), V('row_item'), V('col_number')], src=sources(kw=dict(kw)), K=0, fk=[], svn=svn))
+    return out
+
+
 def _lookup_stages(V, tier):
     from checks import c02_lookup
     return c02_lookup.stages(V, tier)
@@ -187,7 +210,7 @@ def _lookup_stages(V, tier):
 
 def main(tier):
     rng = random.Random(common.seed())
-    cases = precedence_cases(tier, rng) + scoping_cases(tier, rng) + sibling_cases(tier, rng) + namespace_cases(tier, rng)
+    cases = precedence_cases(tier, rng) + scoping_cases(tier, rng) + sibling_cases(tier, rng) + namespace_cases(tier, rng) + prefix_cases(tier, rng)
     return render_common.run(
         PID, tier, cases, ['result', 'calls'], batch=3000, extra_stage=_lookup_stages,
         assumptions=['each source binds the probed name to a distinct marker (plain, logging callable, template '
